@@ -145,9 +145,19 @@ def _field(rnd, nr, nc, deg):
 
 
 def _fields(rnd, nr, nc):
-    return [_field(rnd, nr, nc, 'biquadratic'), _field(rnd, nr, nc, 'linear'),
-            _field(rnd, nr, nc, rnd.choice(['quadratic', 'biquadratic'])),
-            _field(rnd, nr, nc, rnd.choice(['const', 'linear', 'bilinear']))]
+    f = [_field(rnd, nr, nc, 'biquadratic'), _field(rnd, nr, nc, 'linear'),
+         _field(rnd, nr, nc, rnd.choice(['quadratic', 'biquadratic'])),
+         _field(rnd, nr, nc, rnd.choice(['const', 'linear', 'bilinear']))]
+    r = rnd.random()
+    if r < 0.12:
+        # a sub-grid whose latitude (or longitude) shift is identically zero, as at the rim of real grids: a value of
+        # exactly 0.0 is a shift like any other
+        f[rnd.choice([0, 0, 1])]['k'] = [[0, 0, 0] for _ in range(3)]
+    elif r < 0.22:
+        # shift fields through zero: zero at the first node and along a line of the sub-grid
+        f[0]['k'][0][0] = 0
+        f[1]['k'][0][0] = 0
+    return f
 
 
 def _name(rnd, used):
